@@ -121,6 +121,8 @@ def judgeCore (s : JState) (e : Ev) : JState :=
     else s.flag s!"post-refused rc={rc} undelivered={s.outstanding.length}"
   | .wakeup rc => if rc = 0 then s else s.flag s!"wakeup-failed rc={rc}"
   | .wait max evs => judgeWait s max evs
+  | .wbegin _ => s
+  | .wread => s
   | .qnew c m f ok =>
     if ok = (decide (c ≠ 0 ∧ m ≠ 0)) then
       if ok then { s with q := some { cap := c, maxMsg := m, flags := f } } else s
